@@ -1,5 +1,6 @@
 import Driver.Util
 import F3.Model.Participant
+import F3.Model.MultiParticipant
 import F3.Model.Valid
 /-! Driver for area `gpbft` (C01, C02, C03, C06, C07): replays every honest participant's op trace through
 `F3.Instance.step`, compares effects/progress/return class, and evaluates the property oracles on the
@@ -93,6 +94,11 @@ structure St where
   /-- consecutive instances of the run and the delay between a decision and the start of the next instance -/
   K : Nat := 1
   gap : Int := 0
+  /-- consecutive-instance runs: the multi-instance participant model (`F3.Model.MultiParticipant`), one per real
+  participant, replayed beside the per-instance virtual nodes -/
+  mstates : List (Pid × MState) := []
+  /-- proposal of the instance a participant is about to begin (from the `node` line that precedes the alarm) -/
+  pendingInput : List (Pid × Chain) := []
   /-- (gst, delta) are read from the `end` line -/
   pendingUndecided : List (Pid × Nat × Nat) := []
 
@@ -411,6 +417,65 @@ def endRunOne (st : St) (gst delta : Int) (now : Int) (capped : Bool) (gstRound 
         else if live && capped then .ok s!"run_{st.mode}_capped"
         else .ok (s!"run_{st.mode}_" ++ (if decs.isEmpty then "nodecision" else if decs.length == honest.length then "alldecided" else "somedecided"))
 
+/-- Consecutive-instance runs: the same call replayed through `mpstep` (queues per instance, drop of finished
+instances, begin + drain, decision hand-off). Returns a difference message, if any. -/
+def processMulti (st : St) (vid : Pid) (kind : String) (now : Int) (detail effsS progS : String) : St × Option String :=
+  let rid := vid % 1000
+  let ms : MState := (lookup st.mstates rid).getD { cfg := st.cfg }
+  let implToks := if effsS = "-" then [] else splitWs effsS
+  let seenJ : List String := ((lookup st.obs vid).map (·.justSeen)).getD []
+  let toks := fun (s0 s1 : MState) (effs : List Eff) =>
+    effs.filterMap effStr ++
+      (if s1.decisions.length > s0.decisions.length then
+        match s1.decisions.getLast? with
+        | some (k, d) => ["D," ++ justStr (some d), s!"A,{if k + 1 < st.K then now + st.gap else nextStartAlarm}"]
+        | none => []
+       else [])
+  let agrees := fun (s0 : MState) (r : MState × List Eff) =>
+    let t := toks s0 r.1 r.2
+    t.length == implToks.length && (t.zip implToks).all (fun (a, b) => effEq seenJ a b)
+  let mop? : Option (List MOp) :=
+    match kind with
+    | "A" =>
+      if ms.active.isNone then
+        let inp := (lookup st.pendingInput rid).getD []
+        let ss := sendersOf (queueOf ms.queues ms.cur)
+        let orders := if ss.length ≤ 1 then [[]] else if ss.length ≤ 6 then perms ss
+          else (List.range ss.length).map (fun i => ss.drop i ++ ss.take i) ++ [ss.reverse]
+        some (orders.map (fun o => MOp.alarm now st.tbl inp o))
+      else some [MOp.alarm now st.tbl [] []]
+    | _ =>
+      match parseMsg? detail with
+      | some (mg, inst) => some [MOp.recv now { inst := inst, msg := mg }]
+      | none => none
+  match mop? with
+  | none => (st, some "multi: cannot parse op")
+  | some cands =>
+    -- begin alarms: any drain order is admissible (Go map order); active instance: COMMIT-sway map order
+    let variants : List (MState × MOp) :=
+      cands.map (fun c => (ms, c)) ++
+      (match ms.active with
+       | some p => (mapOrderVariants p.inst).flatMap (fun v => cands.map (fun c => ({ ms with active := some { p with inst := v } }, c)))
+       | none => [])
+    let pick := match variants.find? (fun v => agrees v.1 (mpstep v.1 v.2)) with
+      | some v => some v
+      | none => variants.head?
+    match pick with
+    | none => (st, some "multi: no candidate op")
+    | some (ms0, op) =>
+      let r := mpstep ms0 op
+      let st' := { st with mstates := update st.mstates rid r.1 }
+      let t := toks ms0 r.1 r.2
+      let prog : Option (Nat × Nat × Nat) := match progS.splitOn "," with
+        | [a, b, c] => do some ((← a.toNat?), (← b.toNat?), (← c.toNat?))
+        | _ => none
+      let mprog : Nat × Nat × Nat := match r.1.active with
+        | some p => (r.1.cur, p.inst.round, p.inst.phase.toNat)
+        | none => (r.1.cur, 0, 0)
+      if !agrees ms0 r then (st', some s!"multi-instance model: effects [{" ".intercalate t}]")
+      else if prog != some mprog then (st', some s!"multi-instance model: progress {mprog}")
+      else (st', none)
+
 /-- the cross-node oracles, instance by instance (consecutive-instance runs have one virtual node per
 participant and instance) -/
 def endRun (st : St) (gst delta : Int) (now : Int) (capped : Bool) (gstRound decRound : Int) : Verdict :=
@@ -459,7 +524,8 @@ def step (st : St) (line : String) : St × Verdict :=
         let m : PState := match lookup st.models id with
           | some q => { q with inst := init st.cfg st.tbl inp }
           | none => { inst := init st.cfg st.tbl inp }
-        ({ st with models := update st.models id m, obs := update st.obs id o }, .skip)
+        ({ st with models := update st.models id m, obs := update st.obs id o,
+                   pendingInput := update st.pendingInput (id % 1000) inp }, .skip)
     | _, _, _, _ => (st, .bad "node")
   | "o" :: id :: kind :: now :: _ =>
     match id.toNat?, now.toInt? with
@@ -468,9 +534,16 @@ def step (st : St) (line : String) : St × Verdict :=
       | [head, effs, prog, ret] =>
         let headToks := splitWs head
         let detail := (headToks.drop 4).headD ""
-        if kind == "Q" then processQueued st id now detail effs.trimAscii.toString ret.trimAscii.toString
-        else if kind == "P" then processPast st id effs.trimAscii.toString ret.trimAscii.toString
-        else processOp st id kind now detail effs.trimAscii.toString prog.trimAscii.toString ret.trimAscii.toString
+        let r :=
+          if kind == "Q" then processQueued st id now detail effs.trimAscii.toString ret.trimAscii.toString
+          else if kind == "P" then processPast st id effs.trimAscii.toString ret.trimAscii.toString
+          else processOp st id kind now detail effs.trimAscii.toString prog.trimAscii.toString ret.trimAscii.toString
+        if st.mode != "multi" then r
+        else
+          let (st2, d) := processMulti r.1 id kind now detail effs.trimAscii.toString prog.trimAscii.toString
+          match r.2, d with
+          | .ok _, some msg => (st2, .diff s!"node={id} {msg}")
+          | v, _ => (st2, v)
       | _ => (st, .bad "op fields")
     | _, _ => (st, .bad "op header")
   | "dec" :: id :: j :: rest =>
